@@ -287,6 +287,19 @@ class State:
         self.facts.append((("notin", t, tuple(sorted(values))), True, ins))
         return True
 
+    # relation queries tolerant of how the source spelled the comparison
+    def rel_gt(self, a, b, upto=None):
+        """is a > b (unsigned) known on this path?  accepts a>b, b<a, !(a<=b), !(b>=a)"""
+        tr = self.truth if upto is None else {t: v for t, v, _ in self.facts[:upto]}
+        return (tr.get(("icmp", "ugt", a, b)) is True or tr.get(("icmp", "ult", b, a)) is True or
+                tr.get(("icmp", "ule", a, b)) is False or tr.get(("icmp", "uge", b, a)) is False)
+
+    def rel_ge(self, a, b, upto=None):
+        """is a >= b (unsigned) known on this path?"""
+        tr = self.truth if upto is None else {t: v for t, v, _ in self.facts[:upto]}
+        return (tr.get(("icmp", "uge", a, b)) is True or tr.get(("icmp", "ule", b, a)) is True or
+                tr.get(("icmp", "ult", a, b)) is False or tr.get(("icmp", "ugt", b, a)) is False or self.rel_gt(a, b, upto))
+
     def known_nonnull(self, t, upto=None):
         """is `t != 0` among the facts (optionally only the first `upto` facts)?"""
         if is_const(t):
